@@ -126,6 +126,7 @@ func commandErrIsFatal(err error) bool {
 // fsync the file.
 func (s *Server) flushAOF(sync bool) {
 	if len(s.aofbuf) > 0 {
+		verifPoint(s, "aof.flush")
 		_, err := s.aof.Write(s.aofbuf)
 		if err != nil {
 			panic(err)
